@@ -195,7 +195,7 @@ func runGrp(t *testing.T, tk []string) string {
 	for i := range ports {
 		ports[i] = base + i
 	}
-	copts := []kfake.Opt{kfake.NumBrokers(brokers), kfake.Ports(ports...), kfake.SeedTopics(int32(parts), "t"), kfake.ListenFn(net.ListenFn)}
+	copts := []kfake.Opt{kfake.NumBrokers(brokers), kfake.Ports(ports...), kfake.SeedTopics(int32(parts), "t"), kfake.SeedTopics(1, "u"), kfake.ListenFn(net.ListenFn)}
 	if bal == 4 {
 		// KIP-848: the session timeout is the broker's (default 45 s). A member whose leave heartbeat was lost to a
 		// connection fault stays in the group until it expires, so it is set to the classic scenarios' 6 s and the
@@ -265,7 +265,7 @@ func runGrp(t *testing.T, tk []string) string {
 	if bal == 4 {
 		rebalanceTimeout = 20 * time.Second
 	}
-	member := func(wr *hx.Rng, lifetime time.Duration, forever bool) {
+	member := func(wr *hx.Rng, lifetime time.Duration, forever bool, slotOf int) {
 		m := nextM.Add(1)
 		var balancer kgo.GroupBalancer
 		switch bal {
@@ -284,9 +284,18 @@ func runGrp(t *testing.T, tk []string) string {
 			// assignor is sticky and almost never produces an empty target assignment)
 			balancer = kgo.RangeBalancer()
 		}
+		// a fifth of the cooperative scenarios: the forever member of slot 0 also consumes a second topic `u` (one empty
+		// partition, not tracked by the history) and later purges `t` from what it consumes: the partitions of `t` it owns
+		// must reach the members that still consume `t` (two rebalances: the claim is withheld first, then handed over)
+		purger := bal == 3 && seed%5 == 0 && forever && slotOf == 0 && slots >= 2
+		topics := []string{"t"}
+		if purger {
+			topics = []string{"t", "u"}
+			hx.St.Inc("scen.grp.member-purges-topic")
+		}
 		opts := append([]kgo.Opt{
 			kgo.WithContext(gctx),
-			kgo.ConsumerGroup("g"), kgo.ConsumeTopics("t"), kgo.Balancers(balancer),
+			kgo.ConsumerGroup("g"), kgo.ConsumeTopics(topics...), kgo.Balancers(balancer),
 			kgo.ConsumeResetOffset(kgo.NewOffset().AtStart()),
 			kgo.AutoCommitInterval(time.Duration(commitms) * time.Millisecond),
 			kgo.SessionTimeout(6 * time.Second), kgo.HeartbeatInterval(300 * time.Millisecond), kgo.RebalanceTimeout(rebalanceTimeout),
@@ -314,6 +323,9 @@ func runGrp(t *testing.T, tk []string) string {
 			kgo.AutoCommitCallback(func(_ *kgo.Client, req *kmsg.OffsetCommitRequest, resp *kmsg.OffsetCommitResponse, err error) {
 				if err != nil || resp == nil {
 					for _, rt := range req.Topics {
+						if rt.Topic != "t" {
+							continue
+						}
 						for _, rp := range rt.Partitions {
 							log.Add("Ac:%d:%d:%d:err", m, rp.Partition, rp.Offset)
 						}
@@ -322,11 +334,17 @@ func runGrp(t *testing.T, tk []string) string {
 				}
 				want := map[int32]int64{}
 				for _, rt := range req.Topics {
+						if rt.Topic != "t" {
+							continue
+						}
 					for _, rp := range rt.Partitions {
 						want[rp.Partition] = rp.Offset
 					}
 				}
 				for _, rt := range resp.Topics {
+					if rt.Topic != "t" {
+						continue
+					}
 					for _, rp := range rt.Partitions {
 						res := "ok"
 						if rp.ErrorCode != 0 {
@@ -349,6 +367,7 @@ func runGrp(t *testing.T, tk []string) string {
 		live.Store(m, struct{}{})
 		deadline := time.Now().Add(lifetime)
 		pausing, pausedPart, pausedFor := seed%4 == 2, int32(0), 0
+		purgeAt := time.Now().Add(time.Duration(2000+wr.Intn(4000)) * time.Millisecond)
 		for (forever && !stopAll.Load()) || (!forever && time.Now().Before(deadline) && !stopAll.Load()) {
 			pctx, pc := context.WithTimeout(ctx, time.Duration(50+wr.Intn(150))*time.Millisecond)
 			log.Add("Ps:%d", m)
@@ -383,6 +402,10 @@ func runGrp(t *testing.T, tk []string) string {
 			if blockpoll {
 				cl.AllowRebalance()
 			}
+			if purger && time.Now().After(purgeAt) {
+				purger = false
+				cl.PurgeTopicsFromConsuming("t")
+			}
 		}
 		live.Delete(m)
 		log.Add("Lv:%d", m)
@@ -401,10 +424,10 @@ func runGrp(t *testing.T, tk []string) string {
 				n = wr.Intn(restarts + 1)
 			}
 			for k := 0; k < n; k++ {
-				member(wr, time.Duration(300+wr.Intn(2500))*time.Millisecond, false)
+				member(wr, time.Duration(300+wr.Intn(2500))*time.Millisecond, false, s)
 				time.Sleep(time.Duration(wr.Intn(600)) * time.Millisecond)
 			}
-			member(wr, 0, true)
+			member(wr, 0, true, s)
 		}(s)
 	}
 	pwg.Wait()
